@@ -29,10 +29,10 @@ import traces
 NTK, NFK = 3, 3
 
 FOCUS = {
-    "C01": dict(p_read=0.6, handles=0.15, weights={"remove": 4, "reads": ["search", "search", "count", "contains", "get", "select", "count", "get_timestamps", "all"]}),
-    "C02": dict(p_read=0.45, handles=0.15, weights={"remove": 7, "drop": 3, "remove_all": 2, "update": 1, "update_all": 0}),
+    "C01": dict(p_read=0.6, handles=0.15, weights={"remove": 5, "negfield": 0.35, "reads": ["search", "search", "count", "contains", "get", "select", "count", "get_timestamps", "all"]}),
+    "C02": dict(p_read=0.45, handles=0.15, weights={"remove": 7, "drop": 3, "remove_all": 2, "update": 1, "update_all": 0, "negfield": 0.3}),
     "C03": dict(p_read=0.4, handles=0.15, weights={"update": 8, "update_all": 3, "remove": 1, "fail": 0.0}),
-    "C06": dict(p_read=0.45, handles=0.1, weights={"remove": 4, "remove_all": 2, "reindex": 2, "insert_multiple": 3, "fail": 0.15, "bad": 0.3}),
+    "C06": dict(p_read=0.45, handles=0.1, weights={"negfield": 0.3, "remove": 5, "remove_all": 2, "reindex": 2, "insert_multiple": 3, "fail": 0.15, "bad": 0.3}),
     "C07": dict(p_read=0.65, handles=0.3, weights={"remove": 5, "drop": 1, "update": 2, "reads": [
         "all", "len", "iter", "get_measurements", "get_tag_keys", "get_tag_values", "get_field_keys", "get_field_values",
         "get_timestamps", "get_tag_keys", "get_tag_values", "get_field_keys", "get_field_values", "get_timestamps", "count"]}),
@@ -77,6 +77,7 @@ def random_jobs(pid, n, seed, length):
         g = gen.Gen(seed * 7771 + i * 13 + int(pid[1:]), ntk=NTK, nfk=NFK, focus=f["weights"], handles=0.0)
         kind, ai = traces.CONFIGS[(i % 3) if i % 4 else 1]      # mostly auto_index on
         jobs.append(("bs%d" % i, kind, ai, g.batch_scenario(), g.battery(3), NTK, NFK))
+        jobs.append(("sr%d" % i, kind, ai, g.scan_remove_scenario(), g.battery(3), NTK, NFK))
     return jobs
 
 
